@@ -29,7 +29,12 @@ class Adapter(EE.EnvAdapter):
         return ("a", self.default_action)
 
 
-def core_alphabet(cfg_or_path):
+def core_alphabet(cfg_or_path, core=None):
+    core = core or CORE
+    return _core_alphabet(cfg_or_path, core)
+
+
+def _core_alphabet(cfg_or_path, CORE):
     if isinstance(cfg_or_path, str):
         cfg = HE.load_yaml(cfg_or_path) if cfg_or_path.endswith(".yaml") else None
     else:
@@ -77,7 +82,7 @@ def scenarios(tier):
 def make_adapter(name, cfg, p, oracles):
     ad = Adapter("c01-%s-%s" % (name, "k%d" % p.get("k", 0) if "H" in p else "bfs"), cfg, oracles,
                  init_reset_seed=p.get("reset_seed", 3),
-                 dev_alphabet=core_alphabet(cfg) if p.get("core") else None,
+                 dev_alphabet=core_alphabet(cfg, p.get("core_names")) if p.get("core") else None,
                  extra_params={"scenario_name": name, "p": {k: v for k, v in p.items()}})
     if p.get("multi_reset"):
         # episode-scheduled scenarios: the default script resets after every second step so that several episodes of
